@@ -426,7 +426,7 @@ class C13(Check):
 
 class C14(Check):
     pid = "C14"
-    lean_modules = ["MTProps.C14", "MTProps.CodeRun"]
+    lean_modules = ["MTProps.C14", "MTProps.CodeRun", "MTProps.CodeInit"]
 
     def body(self):
         rng = self.rng
